@@ -27,3 +27,4 @@ pub fn hex(v: u128) -> String {
 
 pub mod ir_interp;
 pub mod irb;
+pub mod pcode;
